@@ -308,9 +308,13 @@ mutual
           | none => cerr s!"unresolved reference '{n}'"
           | some (sym, _) => emitGet sym
       | .arr es => do
+          if es.length > 65535 then
+            cerr s!"too many elements in array literal ({es.length} > 65535)"
           compileExprs d es
           discard <| emit opArray [es.length]
       | .map kvs => do
+          if kvs.length * 2 > 65535 then
+            cerr s!"too many elements in map literal ({kvs.length} > 32767)"
           compileKVs d kvs
           discard <| emit opMap [kvs.length * 2]
       | .sel x s => do compileExpr d x; compileExpr d s; discard <| emit opIndex
@@ -401,6 +405,7 @@ mutual
         let (ident, selectors) := resolveAssignLHS l
         let numSel := selectors.length
         if op == "Define" && numSel > 0 then cerr "operator ':=' not allowed with selector"
+        if numSel > 255 then cerr s!"too many selectors in assignment ({numSel} > 255)"
         let isFunc := match r with
           | .func .. => true
           | _ => false
